@@ -149,11 +149,16 @@ def check_emit(ctx, e, sz):
         else:
             want = expected(op, e, fv, gv)
             results = [(lab, r, want) for lab, r in perform(op, e, f, g, sz)]
+            if op in ("logsumexp", "project_logsumexp"):
+                # values spread over far more than the range of exp(): every kept assignment must be stabilised on its own slice
+                wide = Factor(f.domain, f.values * 900.0)
+                wv = [x * 900.0 for x in fv]
+                results += [(lab + " [x900]", r, expected(op, e, wv, gv)) for lab, r in perform(op, e, wide, g, sz)]
             if op == "div":
                 # tiny but non-zero divisors (marginals of models with a small total, rare separator values) are still divisors;
                 # a divisor of exactly 0 gives 0 (the library's declared 0/0 convention)
-                tiny = Factor(g.domain, g.values * 1e-11)
-                results.append(("f/(1e-11*g)", f / tiny, expected(op, e, fv, [x * 1e-11 for x in gv])))
+                tiny = Factor(g.domain, g.values * 1e-15)
+                results.append(("f/(1e-15*g)", f / tiny, expected(op, e, fv, [x * 1e-15 for x in gv])))
                 gz = g.values.copy(); gz.reshape(-1)[0] = 0.0
                 wz = [0.0 if j == 1 else fv[i - 1] / gv[j - 1] for i, j in e["map"]]
                 results.append(("f/g with one zero divisor cell", f / Factor(g.domain, gz), wz))
@@ -231,6 +236,10 @@ def check_cv(ctx, e, sz, f, g, info):
             bad.append("vector - vector ignores an entry rebound after construction (%s)" % (k,))
     if abs(cv3.dot(cv2) - float((cur[kf] * cv2[kf].values).sum() + (cur[kg] * cv2[kg].values).sum())) > 1e-9 * max(1.0, abs(want)):
         bad.append("dot ignores an entry rebound after construction")
+    # the same clique may be stored with its attributes in another order in the other vector: dot pairs cells by NAME
+    cv2t = CliqueVector({k: (cv2[k].transpose(tuple(reversed(k))) if len(k) >= 2 else cv2[k]) for k in (kf, kg)})
+    if abs(cv1.dot(cv2t) - want) > 1e-9 * max(1.0, abs(want)):
+        bad.append("dot with a factor stored in another attribute order = %r, by-name value %r" % (cv1.dot(cv2t), want))
     # combine: absorbed into the merged clique by name, each source exactly once
     out = tuple(e["out"])
     base = CliqueVector.zeros(Domain(list(out), [sz[a] for a in out]), [out])
